@@ -498,16 +498,29 @@ class Analysis:
                 tg = self.P.callee(x, f)
                 name = tg.name if tg is not None else None
                 pair = CAP_PAIRS.get(name) if name else None
+                a = x.get("a", [])
+                byref = None
+                if tg is None and not x.get("fn"):
+                    # a codec called through its ops table: (buf, &capacity, ..) writes up to capacity + 1 bytes
+                    # (the terminator after a full buffer, C07.R5)
+                    tgs = self.P.indirect_targets(x, f)
+                    if tgs and all(t_.name.endswith(("_encode", "_decode")) for t_ in tgs) and len(a) >= 2:
+                        cap = sk(a[1])
+                        if cap.get("k") == "Un" and cap["op"] == "&":
+                            byref = sk(cap["a"][0])
+                            name = pp(sk(x.get("callee") or x.get("f") or {})) if (x.get("callee") or x.get("f")) else "codec"
+                            name = "/".join(sorted({t_.name for t_ in tgs}))[:40]
+                            pair = (0, 1, 1)
                 if not pair:
                     continue
-                a = x.get("a", [])
                 if len(a) <= max(pair[0], pair[1]):
                     continue
                 dst = a[pair[0]]
+                capexpr = byref if byref is not None else a[pair[1]]
                 if cval(sk(dst)) == 0:
                     continue            # NULL destination: callee writes nothing
                 ob = obj_extent(dst)
-                what = "%s(%s, %s)" % (name, pp(sk(dst))[:30], pp(sk(a[pair[1]]))[:40])
+                what = "%s(%s, %s)" % (name, pp(sk(dst))[:30], pp(sk(capexpr))[:40])
                 an = an or self.E.analysis(f)
                 ds = an.before_node(x["n"])
                 if ds is None:
@@ -521,7 +534,7 @@ class Analysis:
                         root, off = sk(d["a"][0]), L.lin(d["a"][1])
                     if mine and root.get("k") == "Ref" and root["ref"]["rk"] == "param" and f.param_index(root["ref"]["id"]) == mine[0]:
                         capn = f.params[mine[1]]["ref"]["name"]
-                        cf = L.lin(a[pair[1]])
+                        cf = L.lin(capexpr)
                         bad = None
                         if cf is None or off is None:
                             bad = "capacity or offset not linear"
@@ -534,7 +547,7 @@ class Analysis:
                         self.sites.append(Site("M3p", f, x, what, None, "pointer of unknown capacity handed to a writer"))
                     continue
                 key, extent, off, es = ob
-                cf = L.lin(a[pair[1]])
+                cf = L.lin(capexpr)
                 if cf is None:
                     self.sites.append(Site("M3c", f, x, what, False, "capacity argument is not linear"))
                     continue
@@ -545,7 +558,7 @@ class Analysis:
                         self.sites.append(Site("M3c", f, x, what, True,
                                                "output <= source characters (%s bytes) + %d <= %s bytes" % (src[1], pair[2], extent)))
                         continue
-                ok, why = fits(ds, extent, off, (cf[0], cf[1] + pair[2]), atom_types(dst, a[pair[1]]))
+                ok, why = fits(ds, extent, off, (cf[0], cf[1] + pair[2]), atom_types(dst, capexpr))
                 self.sites.append(Site("M3c", f, x, what, ok,
                                        "capacity %s%s fits %s (%s bytes)" % (L.show(cf), " + %d" % pair[2] if pair[2] else "", key, extent) if ok else
                                        "%s: the capacity stated for %s exceeds the %s bytes behind it" % (why, key, extent)))
